@@ -300,6 +300,22 @@ var freeSources = []string{
 	"T | where a > 1 | project a | sort by a | take 2 | count", "T | summarize count() by a | join (B | take 1) on a | as X | count",
 }
 
+// large programs: shared buffers, pools and caches are often only reached past some size (many subqueries, long
+// lists, many bindings, deep nests)
+func init() {
+	rep := func(s string, n int) string { return strings.Repeat(s, n) }
+	freeSources = append(freeSources,
+		"T"+rep(" | count", 12),
+		"T"+rep(" | take 3 | sort by a", 9),
+		"T | join (B"+rep(" | where b > 1 | take 2", 6)+") on k"+rep(" | join (C) on k", 5),
+		"T | where a in (1"+rep(", 2", 40)+") | project a"+rep(", b", 30),
+		rep("let v = 1; ", 25)+"T | where a == v and b == p",
+		"T | extend r = "+rep("f(", 30)+"a"+rep(")", 30)+" | summarize count() by "+rep("a, ", 20)+"b",
+		"T | where strcat(p"+rep(", 'x'", 35)+") == 'y'"+rep(" | as X", 1),
+		"T"+rep(" | where a == p", 11)+" | count",
+	)
+}
+
 // cmdConcWorker: runs rounds from a file; writes a report.
 func cmdConcWorker(a args) {
 	pql.VerifHook = hook
